@@ -24,7 +24,7 @@ import leuvenmapmatching.matcher.base as mbase
 ID = "C10"
 TITLE = "Matching is deterministic"
 MANIFEST = {
-    "text": "Part 1: for every input of the slice (all graphs on 2-3 nodes in both alphabets - ties on GRID - and twelve named 4-5 node "
+    "text": "Part 1: for every input of the slice (all graphs on 2-3 nodes in both alphabets - ties on GRID - and 26 named 4-12 node "
             "graphs; traces of length <= 3 incl. a far outlier; 3 families x non-emitting on/off x cut-offs that stop early) the real "
             "matcher is run once per explored iteration schedule of the shadowed `set` (all k! orders for every set of k <= 4 elements, "
             "identity/reversal/rotations/adjacent transpositions beyond) and must give identical canonical results. Conformance: the "
@@ -37,6 +37,8 @@ MANIFEST = {
             "seeds are the conformance check that the shadowed `set` is where the nondeterminism lives.",
     "technique": "exhaustive exploration of the nondeterministic choice (set iteration order) under a controlled scheduler, plus enumerated-seed conformance runs and exhaustive listing-order permutations",
 }
+MANIFEST["text"] += " " + (
+    'Added after the seeding waves: a deviation-bounded family of listing orders (identity, reversal, rotations, adjacent transpositions; neighbour lists reversed) on the named graphs, width-1 configurations, the fork8 graph with observations on its symmetry axis (exact ties inside a non-emitting run).')
 BUDGET = {"quick": 420, "thorough": 3000}
 RULE = ("states = (input, schedule) executions, transitions = iterations of a shadowed set that were given an explicit order, traces "
         "validated = inputs whose result was compared across fresh interpreters with different hash seeds; non-trivial = some "
